@@ -112,7 +112,7 @@ def r3_r6_executor_loop(ctx):
     for cls, fields in (("TaskFailure", {"worker": worker("H1"), "task": "t", "detail": "x"}), ("DatasetTransmitFailure", {"host": "H1", "detail": "x"})):
         m = Obj(MSG + cls, fields, name=f"m-{cls}")
         sent = []
-        ip = Interp(repo, max_while=1, call_models={"cascade.executor.comms.Listener.recv_messages": lambda run, a, k, n, f, _m=m: [_m] if not sent and not sent.append(1) else []})
+        ip = Interp(repo, max_while=1, call_models={"cascade.executor.comms.Listener.recv_messages": lambda run, a, k, n, f, _m=m: [_m] if not getattr(run, 'model_sent', False) and not setattr(run, 'model_sent', True) else []})
         paths = ip.explore(fi, env={"self.terminating": False, "self.workers": {}, "self.datasets": set()})
         ctx.evals(len(paths))
         fw = any(is_call(e, qual=f"{EX}.to_controller") and e.data["args"] and getattr(e.data["args"][0], "name", "") == m.name for p in paths for e in p.effects)
@@ -139,7 +139,7 @@ def r4_bridge_failures(ctx):
         msg = Obj(q, {"host": "H1", "worker": worker("H1"), "detail": "d", "task": "t"}, name=f"m-{nm}")
         sent = []
         ip = Interp(repo, max_while=2, max_iter=0, call_models={
-            "cascade.executor.comms.Listener.recv_messages": lambda run, a, k, n, f, _m=msg: [_m] if not sent and not sent.append(1) else []})
+            "cascade.executor.comms.Listener.recv_messages": lambda run, a, k, n, f, _m=msg: [_m] if not getattr(run, 'model_sent', False) and not setattr(run, 'model_sent', True) else []})
         env = {"self.heartbeat_checker": {"H1": Obj("cascade.executor.comms.GraceWatcher", {}, name="gw")}, "self.sender.hosts": {"H1": ("s", "a"), "data.H1": ("s", "a")}}
         paths = ip.explore(fi, env=env)
         ctx.evals(len(paths))
